@@ -161,6 +161,12 @@ func (p *instancePool) Run(ctx context.Context) error {
 			p.log.Info("Pool failed. Canceling started tasks", zap.Error(err))
 			return err
 		}
+		if ctxErr := ctx.Err(); ctxErr != nil {
+			// Canceled while the results were being awaited: an error awaited after the cancel was
+			// suppressed, so a closed awaitErr does not mean success here.
+			p.log.Info("Pool execution canceled")
+			return ctxErr
+		}
 		p.log.Info("Pool run finished successfully")
 		return nil
 	}
